@@ -358,8 +358,13 @@ class Ctx:
             "violations": len(self.violations),
         }
         ev["coverage"].update(self.extra)
-        (VERIF / "evidence").mkdir(exist_ok=True)
-        (VERIF / "evidence" / (self.pid + ".json")).write_text(json.dumps(ev, indent=1, default=str))
+        if str(REPO) != "/repo":
+            # a development run against another tree (NITIME_REPO=<worktree>, used to try seeded changes)
+            # must not replace the evidence of the registered command, which always runs against /repo
+            (self.build / "evidence_other_tree.json").write_text(json.dumps(ev, indent=1, default=str))
+        else:
+            (VERIF / "evidence").mkdir(exist_ok=True)
+            (VERIF / "evidence" / (self.pid + ".json")).write_text(json.dumps(ev, indent=1, default=str))
         return 1 if self.violations else 0
 
 
